@@ -30,6 +30,7 @@ RULES_DOC = {
     "R14": "`let X = loop { .. break E .. };` (break with value) -> `let X; loop { .. { X = E; break; } .. }`",
     "R16": "impl header replaced by the one given in the contract store (adds the bound `P: Prefix` where the source impl is unbounded; the contract is meaningless for other P)",
     "R17": "crate-internal module path prefixes dropped (the unit is a single flat module)",
+    "R18": "`unsafe { e }` -> `{ e }` and `unsafe fn` -> `fn` (markers only)",
     "R11": "`vec![a, b]` -> `vec2(a, b)`-style helper calls with vstd-verified bodies (speclib/std_specs.rs)",
 }
 
@@ -341,6 +342,10 @@ def rewrite_R11(text):
 def rewrite_R17(text):
     """the unit is one flat module: crate-internal path prefixes are dropped (`map::Direction` -> `Direction`)"""
     return re.sub(r"\b(?:crate::)?(?:map|inner|trieview|set|prefix)::(?=[A-Z])", "", re.sub(r"\bcrate::(?=[A-Za-z_])", "", text))
+
+def rewrite_R18(text):
+    """`unsafe { e }` -> `{ e }`  (the marker has no run-time meaning; obligations of the callee are checked as usual)"""
+    return re.sub(r"\bunsafe\s*\{", "{", text)
 
 def rewrite_R2(text):
     text = re.sub(r"unsafe\s*\{\s*([A-Za-z_\.]+(?:\.as_ref\(\)\?)?)\s*\.get_mut\(\s*([^)]*?)\s*\)\s*\}", r"&\1.0[\2]", text)
@@ -690,6 +695,10 @@ def emit_fn(out, u, fs, rules_used):
     if fs.opts.get("demote"):
         t2 = rewrite_R2(text1)
         if t2 != text1: rules_used.add("R2")
+        text1 = t2
+    for rule, fnr in (("R18", rewrite_R18),):
+        t2 = fnr(text1)
+        if t2 != text1: rules_used.add(rule)
         text1 = t2
     for (rx, rp, why) in fs.rewrites:
         t2, nsub = re.subn(rx, rp, text1, flags=re.S)
